@@ -103,6 +103,7 @@ def one_history(ctx, i, tmproot):
         via_symlink = rng.random() < 0.35  # every file is named through a symlinked directory
         hand_written = rng.random() < 0.5
         crlf = rng.random() < 0.4
+        edge_edit = (not crlf) and rng.random() < 0.5
         p = make_project(rng, root, truth, pre, method=method, rich=rich, via_symlink=via_symlink, hand_written=hand_written, crlf_files=crlf)
         switch = i % 4 == 3  # switch the truth kind mid-history
         length = 2 + i % 3
@@ -129,6 +130,21 @@ def one_history(ctx, i, tmproot):
         for run_no, t in enumerate(truths, 1):
             p.truth = t
             converted = False
+            if edge_edit and run_no == 3:
+                # a hand edit that only touches the blank space at the very start / end of every target file
+                how = ("strip_final_newline", "extra_blank_lines_at_end", "blank_lines_at_start")[i % 3]
+                for k_, f in p.files.items():
+                    if k_ != t and os.path.isfile(f):
+                        with open(f, "rb") as fh:
+                            b = fh.read()
+                        if b.strip():
+                            b2 = {"strip_final_newline": b.rstrip(b"\n"), "extra_blank_lines_at_end": b + b"\n\n\n",
+                                  "blank_lines_at_start": b"\n\n" + b}[how]
+                            with open(f, "wb") as fh:
+                                fh.write(b2)
+                converted = True
+                ctx.event("edge_whitespace_edited_between_runs")
+                ctx.feature("edge_whitespace_edit=" + how)
             if crlf and run_no == 3:
                 # the working copy is checked out again with CRLF line endings (autocrlf): an external edit
                 for f in p.files.values():
